@@ -151,9 +151,15 @@ class EdgeLandmark(BaseEdge):
         # https://docs.ros.org/en/kinetic/api/rtabmap/html/OptimizerG2O_8cpp_source.html
         # fmt: off
         if isinstance(self.vertices[0].pose, PoseSE2):
+            # 2-D landmark edges have no offset in the .g2o format, so anything but the identity cannot be written
+            if not np.array_equal(self.offset, PoseSE2.identity()):
+                raise NotImplementedError("EDGE_SE2_XY does not support a sensor offset")
             return "EDGE_SE2_XY {} {} {} {} ".format(self.vertex_ids[0], self.vertex_ids[1], self.estimate[0], self.estimate[1]) + " ".join([str(x) for x in self.information[np.triu_indices(2, 0)]]) + "\n"
 
         if isinstance(self.vertices[0].pose, PoseSE3):
+            # The offset is written as a parameter, which this line refers to by its ID
+            if self.offset_id is None:
+                raise NotImplementedError("EDGE_SE3_TRACKXYZ requires an offset ID")
             return "EDGE_SE3_TRACKXYZ {} {} {} {} {} {} ".format(self.vertex_ids[0], self.vertex_ids[1], self.offset_id, self.estimate[0], self.estimate[1], self.estimate[2]) + " ".join([str(x) for x in self.information[np.triu_indices(3, 0)]]) + "\n"
         # fmt: on
 
